@@ -65,7 +65,19 @@ func (w *sworld) apiConfigAccepted() bool {
 	if w.k.bgpType != "native" {
 		validate = config.DiscardNativeOnly
 	}
-	r := &controllers.ConfigReconciler{Client: &simk8s.Client{C: cache}, Logger: log.NewNopLogger(), Namespace: metallbNS, ValidateConfig: validate, ForceReload: func() {}, BGPType: w.k.bgpType,
+	var lg log.Logger = log.NewNopLogger()
+	if w.env.Verbose {
+		lg = log.LoggerFunc(func(kv ...interface{}) error {
+			for i := 0; i+1 < len(kv); i += 2 {
+				if kv[i] == "error" && fmt.Sprint(kv[i+1]) != "<nil>" {
+					w.logf("  (configuration refused: %v)", kv)
+					break
+				}
+			}
+			return nil
+		})
+	}
+	r := &controllers.ConfigReconciler{Client: &simk8s.Client{C: cache}, Logger: lg, Namespace: metallbNS, ValidateConfig: validate, ForceReload: func() {}, BGPType: w.k.bgpType,
 		Handler: func(l log.Logger, cfg *config.Config) controllers.SyncState { called = true; return controllers.SyncStateSuccess }}
 	_, _ = r.Reconcile(context.Background(), reqFor(metallbNS+"/x"))
 	return called
@@ -495,6 +507,8 @@ func kspkRun(env *runner.Env) *runner.Result {
 	k.mlDisabled = w.ch.Bool(1, 4, "knob memberlist disabled")
 	k.ignoreExclude = w.ch.Bool(1, 5, "knob ignoreExclude")
 	k.bgpType = []string{"frr", "native"}[w.pick(2, "knob bgpType")]
+	k.bgpFocus = w.ch.Bool(2, 5, "knob bgpFocus")
+	k.nativeV6 = w.ch.Bool(1, 5, "knob nativeV6")
 	faults := vm["faults"] != "off" && w.ch.Bool(1, 2, "knob faults")
 	if faults {
 		k.fCrash = w.ch.Bool(1, 2, "knob fCrash")
